@@ -35,6 +35,9 @@ META = dict(
     outside=['graphs other than the templates (graph-structure quantifier)',
              'the parallel-connection cap P is taken from the library\'s own effective settings per view (it is a library '
              'parameter, decided against its documentation under C09); required: P >= 1 and, where no explicit cap, >= 2',
+             'whether a GROUPING connector may connect repeatedly to the same counterpart is taken from the view under test (two '
+             'connections of a group to one target can be one connection of each of two members; the property does not fix it). '
+             'Observed: the processor view derives it from all members of the full graph, the graph view from the members present',
              '"applying a set yields an instance with precisely those connection edges" is a concrete auxiliary check, not a solver verdict'],
     stubs=['EncoderSelector.get_best_assignment_manager -> default lazy encoder', 'numba kernels executed from .py_func while symbolic',
            'XDG_CACHE_HOME redirected'],
@@ -146,13 +149,20 @@ def excluded_pairs(graph, srcs, tgts):
     return out
 
 
-def spec_from_graph(graph, srcs, tgts, parallel):
-    """ConnSpec over the given connector lists; a connector that is absent from the graph gets degree {0}"""
+def spec_from_graph(graph, srcs, tgts, parallel, group_rep=None):
+    """ConnSpec over the given connector lists; a connector that is absent from the graph gets degree {0}.
+    group_rep: {grouping node: bool} - whether the library's view lets a grouping connector connect repeatedly to the
+    same counterpart. For a group this is not fixed by the property (two connections of the group to one target can be
+    one connection of each of two members): it is taken from the view under test, like the parallel cap."""
+    from adsg_core import ConnectorDegreeGroupingNode
+
     def mk(cn):
         v = connector_view(graph, cn)
         if v is None:
             return C([0], rep=True), True
         deg, rep = v
+        if group_rep is not None and isinstance(cn, ConnectorDegreeGroupingNode) and cn in group_rep:
+            rep = bool(group_rep[cn])
         return (C(deg[1], rep=rep) if deg[0] == 'list' else C(min_=deg[1], rep=rep)), False
     s_c, t_c = [mk(c) for c in srcs], [mk(c) for c in tgts]
     pat = dict(src_override={i: [0] for i, (_, absent) in enumerate(s_c) if absent},
@@ -220,16 +230,17 @@ def _run_scenario(inst, res):
             T = [[z3.Int(f'a_{i}_{j}') for j in range(nt)] for i in range(ns)]
             pre = [T[i][j] >= 0 for i in range(ns) for j in range(nt)]
             prover = Prover(res)
+            grp_rep_a = {c_: n_.rep for c_, n_ in list(zip(srcs, gen.settings.src))+list(zip(tgts, gen.settings.tgt))}
             if k_pat == -1:
                 offered_a = []
                 par_a = None
                 # the library says no valid connection set: the specification must be unsatisfiable for every cap >= 1
-                spec_a = spec_from_graph(inst_g.graph, srcs, tgts, parallel=None)
+                spec_a = spec_from_graph(inst_g.graph, srcs, tgts, parallel=None, group_rep=grp_rep_a)
             else:
                 pat = gen.existence_patterns.patterns[k_pat]
                 eff, _, _ = pat.get_effective_settings(gen.settings)
                 par_a = eff.get_max_conn_parallel()
-                spec_a = spec_from_graph(inst_g.graph, srcs, tgts, parallel=par_a)
+                spec_a = spec_from_graph(inst_g.graph, srcs, tgts, parallel=par_a, group_rep=grp_rep_a)
                 offered_a = [m.tolist() for m in gen.get_agg_matrix(cache=True)[pat]]
                 if par_a < 2:
                     _viol(res, 'scenario', dict(kind='parallel_cap_below_2', **sig), cfg, dict(i_comb=i_comb), par_a, '>= 2')
@@ -301,7 +312,8 @@ def _run_scenario(inst, res):
             par_b = gen_b.settings.get_max_conn_parallel()
             eff_b, _, _ = NodeExistence().get_effective_settings(gen_b.settings)
             par_b = eff_b.get_max_conn_parallel()
-            spec_b = spec_from_graph(inst_g.graph, sb, tb, parallel=par_b)
+            grp_rep_b = {c_: n_.rep for c_, n_ in list(zip(sb, gen_b.settings.src))+list(zip(tb, gen_b.settings.tgt))}
+            spec_b = spec_from_graph(inst_g.graph, sb, tb, parallel=par_b, group_rep=grp_rep_b)
             try:
                 offered_b = [_matrix_of_edges(edges, sb, tb) for edges in K.iter_conn_edges(inst_g)]
             except Exception as e:  # noqa
